@@ -239,6 +239,13 @@ func checkCase(c Case) error {
 	// (a) differential
 	hx.Eval()
 	got, lerr := libHash(img)
+	oddTable := l.CertSize != 0 && (l.CertVA%8 != 0 || l.CertSize%8 != 0)
+	if got == nil && oddTable {
+		// An existing certificate table that is not 8-aligned is outside what the PE format allows; a library
+		// that refuses such a file is not wrong. Only a digest it does return is judged.
+		hx.Class("img/odd_certificate_table_refused_by_library")
+		return nil
+	}
 	if got == nil {
 		return fmt.Errorf("library gives no digest for a well-formed image: %v", lerr)
 	}
